@@ -167,6 +167,10 @@ def run(M, rec, tier, seed, k, n):
             if o["kind"] == "ideal":
                 lk = outs[o["node"]][0]
                 f = vals[lk["id"]]["rho"][0] * vals[lk["id"]]["v"][0] * lk["lam"]
+                if lk.get("user_cap") is not None:
+                    f = min(f, lk["user_cap"])
+                if o.get("user_q") is not None:
+                    f = o["user_q"]
             else:
                 f = vals[o["id"]]["d"]
             sim["ext"] += T * f
@@ -174,6 +178,8 @@ def run(M, rec, tier, seed, k, n):
         for d_ in desc["dests"]:
             for m in ins[d_["node"]]:
                 f = vals[m["id"]]["rho"][-1] * vals[m["id"]]["v"][-1] * m["lam"]
+                if m.get("user_cap") is not None:
+                    f = min(f, m["user_cap"])
                 sim["ext"] -= T * f
                 sim["mag"] += T * abs(f)
         now = sum(sum(nxt[l["id"]]["rho"]) * l["lam"] * l["L"] for l in desc["links"]) + sum(
@@ -186,6 +192,7 @@ def run(M, rec, tier, seed, k, n):
             rec.violation(f"{PROP}:numpy:cumulative vehicle balance broken over a closed-loop simulation",
                           {"desc": desc, "step": kk, "delta": now - sim["start"], "external": sim["ext"]})
 
+    W.USER_KINDS["prob"] = 0.12  # user-defined origin / link kinds conserve vehicles too
     try:
         if tier == "quick":
             W.numpy_steps(M, rec, rng, 500, draws=3, before_case=before)
@@ -204,6 +211,7 @@ def run(M, rec, tier, seed, k, n):
             # every valid 4-node topology (49 551 digraphs) with the reduced role set (253 151 networks)
             W.small_valid_steps(M, rec, rng, 4, k, n, before_case=before, seed=seed + 1, kinds_full=False, only_n=4)
     finally:
+        W.USER_KINDS["prob"] = 0.0
         mon.uninstall()
     if k == 0:
         W.repo_tests(rec, [PROP])
